@@ -74,6 +74,15 @@ def _build_pool() -> list[tuple[str, object, str]]:
                  "BoostZMatrix(expr)", "MatrixMultiplication", "RelativisticKMatrix", "RelativisticPVector",
                  "ArraySlice(known shape)", "ArraySlice(nested)", "compute_boost_chain", "bw_with_ff"):
         pool.append((f"lib:{name}", library[name], ""))
+    # seeded random composites of library expressions (arithmetic, nesting, PoolSum)
+    added = 0
+    for seed in range(40):
+        entry = z_exprs.random_entry(f"c16-{seed}")
+        if len(pickle.dumps(entry["expr"])) < 6000:
+            pool.append((f"rand:{seed}", entry["expr"], ""))
+            added += 1
+        if added == 14:
+            break
     # same str and same unfolding, different non-SymPy attribute: a benign collision
     pool.append(("lib:PhaseSpaceFactor:unnamed", PhaseSpaceFactor(s_real, m1, m2), "str:psf"))
     pool.append(("lib:PhaseSpaceFactor:named", PhaseSpaceFactor(s_real, m1, m2, name="R"), "str:psf"))
